@@ -604,7 +604,7 @@ pub fn tiny_tiff_ex(big: bool, le: bool, pages: usize, n: usize, subifd: bool) -
 
 /// All GIF extension kinds: comment, plain text, application (NETSCAPE2.0 + an unknown one),
 /// graphic control, two images (one with local colour table), trailing bytes optional.
-pub fn rich_gif(trailing: &[u8]) -> Vec<u8> {
+pub fn rich_gif(plain_text: bool, trailing: &[u8]) -> Vec<u8> {
     let mut v = b"GIF89a".to_vec();
     v.extend_from_slice(&[2, 0, 2, 0, 0x80, 0, 0]);
     v.extend_from_slice(&[0, 0, 0, 255, 255, 255]);
@@ -614,7 +614,9 @@ pub fn rich_gif(trailing: &[u8]) -> Vec<u8> {
     v.extend_from_slice(&[0x21, 0xFE, 5]);
     v.extend_from_slice(b"verif");
     v.extend_from_slice(&[3, b'a', b'b', b'c', 0]);
-    v.extend_from_slice(&[0x21, 0x01, 12, 0, 0, 0, 0, 2, 0, 2, 0, 1, 1, 0, 1, 2, b'h', b'i', 0]);
+    if plain_text {
+        v.extend_from_slice(&[0x21, 0x01, 12, 0, 0, 0, 0, 2, 0, 2, 0, 1, 1, 0, 1, 2, b'h', b'i', 0]);
+    }
     v.extend_from_slice(&[0x21, 0xFF, 11]);
     v.extend_from_slice(b"VERIFAPP1.0");
     v.extend_from_slice(&[2, 9, 9, 0]);
@@ -686,7 +688,8 @@ pub fn extended_tiny_assets() -> Vec<Asset> {
     add("tiny_foreign_app11.jpg", "jpg", jpeg_with_foreign_app11());
     add("tiny_trailing.png", "png", assets::tiny_png(false, b"after-iend"));
     add("tiny_private.png", "png", png_with_unknown_chunks());
-    add("tiny_rich.gif", "gif", rich_gif(&[]));
+    add("tiny_rich.gif", "gif", rich_gif(false, &[]));
+    add("tiny_plaintext.gif", "gif", rich_gif(true, &[]));
     add("tiny_trailing.gif", "gif", assets::tiny_gif(false, b"\0\0trail"));
     add("tiny_even.wav", "wav", assets::tiny_wav(32, false));
     add("tiny_odd.webp", "webp", tiny_webp(27));
